@@ -13,6 +13,56 @@ PRODUCED = ['U13', 'U15', 'U17', 'U20', 'SEN'] + ['V%d' % a for a in range(35, 1
 OTHER = ['U9', 'U11', 'U14', 'U16', 'U18', 'U23', 'XYZ', '', 'v40', 'V', 'V7', 'W35', 'Senior']
 
 
+VARIANTS = [f(l) for l in ['U13', 'U17', 'U20', 'SEN'] + ['V%d' % a for a in range(35, 125, 5)]
+            for f in (str.lower, lambda x: ' ' + x.lower(), lambda x: x + ' ', lambda x: x.capitalize() if x == 'SEN' else x.lower() + ' ')]
+
+
+def _spec_pass(order):
+    common.use_repo()
+    from athlib import get_implement_weight, get_specific_event_code, normalize_event_code
+    recs, desc = [], []
+    if order == 'canonical_first':
+        labels = PRODUCED + OTHER + VARIANTS
+    elif order == 'variants_first':
+        labels = VARIANTS + OTHER + PRODUCED
+    elif order == 'reversed':
+        labels = list(reversed(PRODUCED + OTHER + VARIANTS))
+    else:
+        labels = []
+        for i, l in enumerate(PRODUCED):
+            labels += [' ' + l.lower(), l, l.lower(), OTHER[i % len(OTHER)]]
+    for ev in ('SP', 'DT', 'HT', 'JT', 'WT'):
+        for g in 'MF':
+            for ag in labels:
+                try:
+                    w = get_implement_weight(ev, g, ag)
+                except Exception as e:
+                    w = '!' + type(e).__name__
+                try:
+                    code = get_specific_event_code(ev, g, ag)
+                    out = 'ok' if isinstance(code, str) else 'other'
+                    code = code if isinstance(code, str) else ''
+                except Exception as e:
+                    code, out = '', type(e).__name__
+                try:
+                    norm = normalize_event_code(code) if out == 'ok' else ''
+                except Exception:
+                    norm = '\x00'
+                recs.append({'k': 'spec', 'ev': lang.cps(ev), 'w': lang.cps(w if isinstance(w, str) else '?'), 'code': lang.cps(code),
+                             'out': out, 'norm': lang.cps(norm), 'produced': ag in PRODUCED})
+                desc.append('[%s] get_specific_event_code(%r, %r, %r) -> %s %r (weight %r)' % (order, ev, g, ag, out, code, w))
+            ws = []
+            for a in range(35, 125, 5):
+                w = get_implement_weight(ev, g, 'V%d' % a)
+                try:
+                    ws.append(int(round(float(w) * 100)))
+                except (TypeError, ValueError):
+                    ws.append(-1)
+            recs.append({'k': 'band', 'ws': ws})
+            desc.append('[%s] masters weights of %s %s along V35..V120: %s' % (order, ev, g, ws))
+    return recs, desc
+
+
 def run(tier):
     rep = Report('C17', tier, 'model_checking')
     rng = random.Random(common.seed() + 17)
@@ -22,32 +72,15 @@ def run(tier):
         import athlib
         from athlib import get_implement_weight, get_specific_event_code, normalize_event_code, check_event_code
         recs, desc = [], []
-        for ev in ('SP', 'DT', 'HT', 'JT', 'WT'):
-            for g in 'MF':
-                for ag in PRODUCED + OTHER:
-                    w = get_implement_weight(ev, g, ag)
-                    try:
-                        code = get_specific_event_code(ev, g, ag)
-                        out = 'ok' if isinstance(code, str) else 'other'
-                        code = code if isinstance(code, str) else ''
-                    except Exception as e:
-                        code, out = '', type(e).__name__
-                    try:
-                        norm = normalize_event_code(code) if out == 'ok' else ''
-                    except Exception:
-                        norm = '\x00'
-                    recs.append({'k': 'spec', 'ev': lang.cps(ev), 'w': lang.cps(w if isinstance(w, str) else '?'), 'code': lang.cps(code),
-                                 'out': out, 'norm': lang.cps(norm), 'produced': ag in PRODUCED})
-                    desc.append('get_specific_event_code(%r, %r, %r) -> %s %r (weight %r)' % (ev, g, ag, out, code, w))
-                ws = []
-                for a in range(35, 125, 5):
-                    w = get_implement_weight(ev, g, 'V%d' % a)
-                    try:
-                        ws.append(int(round(float(w) * 100)))
-                    except (TypeError, ValueError):
-                        ws.append(-1)
-                recs.append({'k': 'band', 'ws': ws})
-                desc.append('masters weights of %s %s along V35..V120: %s' % (ev, g, ws))
+        # The (event, gender, label) domain is walked in several orders, each in a process of its own: the library's
+        # own labels first; spelling variants of those labels (lower case, padded) first; interleaved; reversed.  A
+        # specific code is a function of its arguments: what an earlier call with a similar label left behind must not
+        # reach a later one (every record is judged by the same clauses, whatever the order).
+        from multiprocessing import get_context
+        with get_context('fork').Pool(4, maxtasksperchild=1) as pool:
+            for part in pool.map(_spec_pass, ['canonical_first', 'variants_first', 'interleaved', 'reversed'], chunksize=1):
+                recs += part[0]
+                desc += part[1]
         others = [c for c in sorted(set(codes) | set(lang.REALISTIC)) if c not in ('SP', 'DT', 'HT', 'JT', 'WT')]
         for c in others:
             g, ag = rng.choice('MF'), rng.choice(PRODUCED + OTHER)
@@ -84,7 +117,7 @@ def run(tier):
         for pr in reports:
             x = recs[pr['index']]
             for cl in pr['clauses']:
-                rep.add_violation('%s:%s' % (cl, desc[pr['index']][:70]), '%s: %s' % (cl, desc[pr['index']]), {'what': desc[pr['index']]})
+                rep.add_violation('%s:%s' % (cl, desc[pr['index']].split('] ', 1)[-1][:70]), '%s: %s' % (cl, desc[pr['index']]), {'what': desc[pr['index']]})
         rep.setcov('records', dict(specific=sum(1 for x in recs if x['k'] == 'spec'), passthrough=len(others), bands=10, table_keys=nkeys))
         rep.setcov('distinct_nontrivial', len(recs))
         rep.setcov('rule', 'distinct (event, gender, age group) triples, pass-through codes and table keys')
